@@ -17,6 +17,27 @@ EXTENDS MosMerge, TLC
 StatusOk(ev) == ev.status = "ok"
 Crashed(ev)  == ev.status \notin {"ok", "merge_error", "completed_error"}
 
+(* A running order that holds a story whose storyID is blank, addressed   *)
+(* by a message with a blank story reference: whether the blank reference *)
+(* "names" that story is not settled by any property, so only failure     *)
+(* atomicity, containment, completion and the envelope are judged there.  *)
+HasBlankStoryRef(m) ==
+  \/ m.story.shape = "blank"
+  \/ (m.cls \in StoryClasses /\ \E i \in DOMAIN m.ids : m.ids[i].shape = "blank")
+(* C01-C06 presuppose unique story IDs (and unique item IDs inside the    *)
+(* addressed story): once a message has carried a duplicate in, "the      *)
+(* story S1" is ambiguous and only atomicity / containment / completion / *)
+(* envelope / multiset preservation are judged                            *)
+PreUnique(ev) ==
+  /\ NoRepeat(StoryIds(ev.pre.kids))
+  /\ (ev.msg.cls \in ItemClasses /\ ResolveIdx(ev.pre.kids, "story", ev.msg.story) # 0)
+        => NoRepeat(ItemIds(ev.pre.kids[ResolveIdx(ev.pre.kids, "story", ev.msg.story)].kids))
+
+AmbiguousBlank(ev) ==
+  \/ ~PreUnique(ev)
+  \/ /\ \E i \in DOMAIN ev.pre.kids : IsStory(ev.pre.kids[i]) /\ ev.pre.kids[i].id = None
+     /\ HasBlankStoryRef(ev.msg)
+
 (* ---------------------------------------------------------------------- *)
 (* C01 / C02: ID sequence of the stories / of the addressed story's items *)
 (* ---------------------------------------------------------------------- *)
@@ -28,7 +49,7 @@ SeqMatches(R, seqPost, seqPre, Proj(_)) ==
 
 StorySeqOk(ev, R) ==
   \/ ev.msg.cls \notin StoryClasses
-  \/ ~Shaped(ev.msg)
+  \/ ~Shaped(ev.msg) \/ AmbiguousBlank(ev)
   \/ HasMiss(R)                         \* C01 speaks about messages whose references resolve
   \/ SeqMatches(R, StoryIds(ev.post.kids), StoryIds(ev.pre.kids), LAMBDA p : StoryIds(p.kids))
 
@@ -37,7 +58,7 @@ StoryPermOk(ev) ==                      \* moves and swaps never add or lose a s
 
 ItemSeqOk(ev, R) ==
   \/ ev.msg.cls \notin ItemClasses
-  \/ ~Shaped(ev.msg)
+  \/ ~Shaped(ev.msg) \/ AmbiguousBlank(ev)
   \/ HasMiss(R)
   \/ AddrIdx(ev.pre, ev.msg) = 0
   \/ SeqMatches(R, ItemIds(AddrKids(ev.post, ev.msg)), ItemIds(AddrKids(ev.pre, ev.msg)),
@@ -96,7 +117,7 @@ DupAmbiguous(ev) ==
         \/ (CarriedIds(ev.msg) \cap IdSet(seq, tag)) \ OperatedIds(ev.msg) # {}
 
 UnnamedOk(ev) ==
-  \/ DupAmbiguous(ev)
+  \/ DupAmbiguous(ev) \/ AmbiguousBlank(ev)
   \/ /\ LensKids(ev.post.kids, ev.msg, ev.pre.kids) = LensKids(ev.pre.kids, ev.msg, ev.pre.kids)
      /\ RootPlain(ev.post) = RootPlain(ev.pre)
      /\ ev.msg.cls # "RunningOrderEnd" => ev.post.root = ev.pre.root
@@ -107,7 +128,7 @@ UnnamedOk(ev) ==
 Arrives(c, seq) == \E i \in DOMAIN seq : seq[i] = c
 
 CarriedOk(ev, R) ==
-  \/ ~StatusOk(ev) \/ ~Shaped(ev.msg) \/ HasMiss(R)
+  \/ ~StatusOk(ev) \/ ~Shaped(ev.msg) \/ HasMiss(R) \/ AmbiguousBlank(ev)
   \/ CASE ev.msg.cls = "StorySend" -> Arrives(Flatten(ev.msg), ev.post.kids)
        [] ev.msg.cls \in {"StoryAppend", "StoryInsert", "EAStoryInsert",
                           "StoryReplace", "EAStoryReplace"} ->
@@ -156,7 +177,7 @@ MovedOk(ev, r) ==        \* every listed element that had to move did move
              => Anchor(obs, x, moved) # Anchor(pre, x, moved)
 
 ReportedOk(ev, R) ==
-  \/ ~StatusOk(ev) \/ ~Shaped(ev.msg)
+  \/ ~StatusOk(ev) \/ ~Shaped(ev.msg) \/ AmbiguousBlank(ev)
   \/ ev.msg.cls \notin (StoryClasses \cup ItemClasses)
   \/ \E r \in R :
        \/ r.loose
